@@ -582,6 +582,7 @@ func runProperty() int {
 			MaxPaths:  optInt(h, *tier, "paths", 20000),
 			MaxDepth:  optInt(h, *tier, "depth", 400),
 			AllocCap:  optInt(h, *tier, "alloc", 4096),
+			Preempt:   optInt(h, *tier, "preempt", -1),
 			Workers:   *workers,
 			Thorough:  *tier == "thorough",
 			KeepLog:   true,
@@ -855,6 +856,9 @@ func runProperty() int {
 			bounds = append(bounds, r.decl.Name+": "+b)
 		}
 		bounds = append(bounds, fmt.Sprintf("%s: unwind<=%d steps<=%d paths<=%d depth<=%d alloc<=%d query-timeout=%dms", r.decl.Name, r.cfg.Unwind, r.cfg.MaxSteps, r.cfg.MaxPaths, r.cfg.MaxDepth, r.cfg.AllocCap, r.cfg.TimeoutMs))
+		if r.cfg.Preempt >= 0 {
+			bounds = append(bounds, fmt.Sprintf("%s: schedules with at most %d preemptions (switches away from a thread that could continue); switches at blocking points are unlimited", r.decl.Name, r.cfg.Preempt))
+		}
 		for _, a := range r.decl.Assumes {
 			assumes = append(assumes, r.decl.Name+": "+a)
 		}
